@@ -1,4 +1,4 @@
-CONSTANTS N = 4  Byz = {4}  MaxView = 6  MaxBlocksPerView = 2  Ruleset = "simple"  Weak = "nolock"  Prefix = 3  EquivViews = {}  DumpEvery = 0
+CONSTANTS N = 4  Byz = {4}  MaxView = 6  MaxBlocksPerView = 2  Ruleset = "simple"  Weak = "nolock"  Prefix = 3  EquivViews = {}  DumpEvery = 0  GroupVotes = FALSE
 SPECIFICATION SpecOrdered
 INVARIANT Agreement
 VIEW view
